@@ -28,7 +28,7 @@ ASSUMPTIONS = ["forcing.module is always given (the property does not say what a
                "the release file has no header line (version 1 always passes the column names)"]
 TIERS = {"quick": dict(runs=220, budget_s=50, shrink=80),
          "thorough": dict(runs=15000, budget_s=900, shrink=150)}
-REQUIRED_PROBES = ["v1", "toml", "grid_omitted", "wildcard", "sections_omitted", "diffusion", "continuous", "leftover_frequency", "user_gridforce_module", "grid_in_first_file_only"]
+REQUIRED_PROBES = ["v1", "toml", "grid_omitted", "wildcard", "sections_omitted", "diffusion", "continuous", "leftover_frequency", "user_gridforce_module", "grid_in_first_file_only", "native_yaml_timestamps", "times_with_seconds"]
 
 PROFILE = gen.profile(
     nsteps=(2, 24), p_reversed=0.0, p_land=0.4, p_subgrid=0.35, N=(1, 4), p_vinfo=0.0, cfl=(0.05, 0.6),
@@ -36,6 +36,7 @@ PROFILE = gen.profile(
     p_kills=0.0, p_deact=0.0, p_lifetime=0.7, p_weight=0.0, p_diffusion=0.3, p_numrec=0.0, p_dense=0.0,
     p_extra_float=0.5, p_extra_time=0.0, p_pvars=1.0, p_release_time_pvar=0.0, p_lonlat_out=0.0, period=(1, 5),
     p_reference=0.4, p_multifile=0.5, spellings=(("yaml2", 1),), p_stop_extra=0.1, p_f4=0.5,
+    dts=(10, 20, 30, 60, 90, 300, 600, 900, 3600, 86400),
 )
 
 
@@ -53,7 +54,7 @@ def generate(seed: int, tier: str, idx: int) -> dict:
     if sc["release"].get("mult_column") is False:
         sc["release"].pop("mult_column")
         sc["release"].pop("col_order", None)
-    sc["plan"] = {"omit_ibm": s.chance(0.5), "alt_module": s.chance(0.4)}
+    sc["plan"] = {"omit_ibm": s.chance(0.5), "alt_module": s.chance(0.4), "native_times": s.chance(0.5)}
     if len(world.frame_partition(sc)) > 1 and s.chance(0.6):
         sc["frames"]["grid_in_first_only"] = True     # "the first forcing file" is then the only possible grid file
     if not sc["release"].get("continuous") and s.chance(0.5):
@@ -137,6 +138,13 @@ def run_variant(res: Result, sc, label: str, edit=None, spelling="yaml2", v1=Fal
                 cfg["release"]["continuous"] = False
         if edit is not None:
             cfg = edit(cfg, d) or cfg
+        if PLAN.get("native_times") and spelling != "toml2":
+            # unquoted YAML timestamps: the reader hands over datetime objects instead of strings
+            import datetime
+
+            for k in ("start", "stop", "reference"):
+                if isinstance(cfg["time"].get(k), str):
+                    cfg["time"][k] = datetime.datetime.fromisoformat(cfg["time"][k])
         if v1:
             cfg = v1_config(sc, d, cfg)
             if v1_edit is not None:
@@ -311,5 +319,9 @@ def execute(sc) -> Result:
         res.probes["user_gridforce_module"] += 1
     if sc["frames"].get("grid_in_first_only"):
         res.probes["grid_in_first_file_only"] += 1
+    if plan.get("native_times"):
+        res.probes["native_yaml_timestamps"] += 1
+        if int(str(truth.t_start(sc))[-2:]):
+            res.probes["times_with_seconds"] += 1
     res.nontrivial = ran >= 3 and nonempty >= 2
     return res
